@@ -9,6 +9,13 @@ package c09
 // CtxReadFull, Seek (3 whence values, targets from below 0 to beyond the end) and WriteTo
 // is run against uio.NewDagReader and against a plain (content, position) model that
 // follows bytes.Reader, compared modulo the io.Reader contract.
+//
+// Half of the CtxReadFull calls get a context of their own that is cancelled as soon as the
+// call has returned (the `ctx, cancel := ...; defer cancel()` shape of real callers such as a
+// per-request context handed down through mfs). The reader of such a case fetches through
+// strictGetter, a NodeGetter that refuses work under a cancelled context, so that state a
+// call leaves behind (walker context, preloaded node promises) and that still refers to the
+// dead context shows in the following Read/Seek/WriteTo.
 
 import (
 	"bytes"
@@ -22,6 +29,8 @@ import (
 	chunker "github.com/ipfs/boxo/chunker"
 	uio "github.com/ipfs/boxo/ipld/unixfs/io"
 	"github.com/ipfs/boxo/ipld/unixfs/mod"
+	cid "github.com/ipfs/go-cid"
+	ipld "github.com/ipfs/go-ipld-format"
 	"pgregory.net/rapid"
 	"verif/kit"
 )
@@ -33,6 +42,8 @@ type Op struct {
 	N      int    `json:"n,omitempty"`
 	Off    int64  `json:"off,omitempty"`
 	Whence int    `json:"w,omitempty"`
+	// Cancel (readfull only): the call gets its own context, cancelled after it returned.
+	Cancel bool `json:"cc,omitempty"`
 }
 
 // ModOp is one preparation step through the DagModifier.
@@ -125,6 +136,14 @@ func gen(t *rapid.T) Case {
 		if partial {
 			op = Op{Kind: "read"} // begin with a read that ends inside the first leaf
 		}
+		if i > 0 && c.Ops[i-1].Cancel && rapid.Bool().Draw(t, "aftercancel") {
+			// the op that inherits whatever the cancelled call left in the reader: mostly
+			// the one that does not bring a context of its own
+			op = Op{Kind: rapid.SampledFrom([]string{"writeto", "writeto", "read"}).Draw(t, "afterkind")}
+		}
+		if op.Kind == "readfull" {
+			op.Cancel = rapid.Bool().Draw(t, "cancelctx")
+		}
 		switch op.Kind {
 		case "read", "readfull":
 			if partial {
@@ -189,6 +208,40 @@ func gen(t *rapid.T) Case {
 		c.Ops = append(c.Ops, op)
 	}
 	return c
+}
+
+// strictGetter is a NodeGetter that honours its context the way a network-backed DAG
+// service does: a request under a cancelled context fails with the context's error; under
+// a live context every node is delivered. Delivery happens inside the call (nothing here
+// depends on timing); nodes are read from the in-memory service with the case's context.
+type strictGetter struct {
+	inner ipld.NodeGetter
+	base  context.Context
+}
+
+func (g *strictGetter) Get(ctx context.Context, c cid.Cid) (ipld.Node, error) {
+	if err := ctx.Err(); err != nil {
+		return nil, err
+	}
+	return g.inner.Get(g.base, c)
+}
+
+func (g *strictGetter) GetMany(ctx context.Context, keys []cid.Cid) <-chan *ipld.NodeOption {
+	out := make(chan *ipld.NodeOption, len(keys)+1)
+	defer close(out)
+	if err := ctx.Err(); err != nil {
+		out <- &ipld.NodeOption{Err: err}
+		return out
+	}
+	for _, k := range keys {
+		nd, err := g.inner.Get(g.base, k)
+		if err != nil {
+			out <- &ipld.NodeOption{Err: err}
+			return out
+		}
+		out <- &ipld.NodeOption{Node: nd}
+	}
+	return out
 }
 
 func sizeSplitterGen(n int) chunker.SplitterGen {
@@ -286,7 +339,15 @@ func runCase(c Case, known *string) kit.Result {
 		return !(i < len(di.Bounds) && di.Bounds[i] == p)
 	}
 
-	r, err := uio.NewDagReader(ctx, root, ds)
+	var getter ipld.NodeGetter = ds
+	for _, op := range c.Ops {
+		if op.Cancel {
+			getter = &strictGetter{inner: ds, base: ctx}
+			classes = append(classes, "strict-getter")
+			break
+		}
+	}
+	r, err := uio.NewDagReader(ctx, root, getter)
 	if err != nil {
 		return kit.Fail("NewDagReader: %v", err)
 	}
@@ -297,6 +358,14 @@ func runCase(c Case, known *string) kit.Result {
 
 	pos := int64(0)
 	partialRead := false // some read ended strictly inside a leaf
+	// deadCtx: the last call that handed the reader a context was a CtxReadFull whose
+	// context is cancelled by now, and the reader has not moved since
+	deadCtx := false
+	// leafAhead: continuing from p needs at least one leaf that no call has fetched yet
+	leafAhead := func(p int64) bool {
+		i := sort.Search(len(di.Bounds), func(i int) bool { return di.Bounds[i] >= p })
+		return i < len(di.Bounds) && di.Bounds[i] < size
+	}
 	nt := false
 	seen := map[string]bool{}
 	for i, op := range c.Ops {
@@ -305,10 +374,22 @@ func runCase(c Case, known *string) kit.Result {
 			buf := make([]byte, op.N)
 			var n int
 			var err error
-			if op.Kind == "read" {
+			if deadCtx && op.N > 0 && leafAhead(pos) {
+				seen["fetch-after-cancelled-ctx"] = true
+			}
+			switch {
+			case op.Kind == "read":
 				n, err = r.Read(buf)
-			} else {
+				deadCtx = false
+			case op.Cancel:
+				// a context per call, gone once the call is over
+				cctx, ccancel := context.WithCancel(ctx)
+				n, err = r.CtxReadFull(cctx, buf)
+				ccancel()
+				deadCtx = true
+			default:
 				n, err = r.CtxReadFull(ctx, buf)
+				deadCtx = false
 			}
 			rem := size - pos
 			if rem < 0 {
@@ -377,9 +458,19 @@ func runCase(c Case, known *string) kit.Result {
 			if tg < pos {
 				seen["seek-back"] = true
 			}
+			if tg != pos {
+				deadCtx = false // the reader repositions with its own context
+			}
 			pos = tg
 		case "writeto":
 			var w bytes.Buffer
+			if deadCtx && leafAhead(pos) {
+				// WriteTo brings no context: it has to fetch the rest of the file although
+				// the context of the previous call is dead
+				seen["writeto-after-cancelled-ctx"] = true
+				nt = true
+			}
+			deadCtx = false
 			n, err := r.WriteTo(&w)
 			if err != nil {
 				return kit.Fail("op %d WriteTo at %d of %d: error %v", i, pos, size, err)
@@ -417,7 +508,7 @@ func runCase(c Case, known *string) kit.Result {
 
 var spec = kit.Spec[Case]{
 	Prop: "C09", Name: "main",
-	Rule:  "file built by balanced/trickle importers (chunk 1..64, width 2..8 or 174, raw/pb leaves, v0/v1/inline-identity CIDs; single-node files; 1/4 passed through a DagModifier of the same width: seek+write/truncate steps), then <=30 ops Read/CtxReadFull/Seek(3 whences + bad whence, targets in [-2,size+2] weighted to leaf boundaries +-1, raw offsets in [-size-2,size+2])/WriteTo vs a bytes.Reader model; non-trivial = a Seek lands strictly inside a leaf after a partial read of a leaf, or WriteTo directly follows a read that ended inside a leaf",
+	Rule:  "file built by balanced/trickle importers (chunk 1..64, width 2..8 or 174, raw/pb leaves, v0/v1/inline-identity CIDs; single-node files; 1/4 passed through a DagModifier of the same width: seek+write/truncate steps), then <=30 ops Read/CtxReadFull/Seek(3 whences + bad whence, targets in [-2,size+2] weighted to leaf boundaries +-1, raw offsets in [-size-2,size+2])/WriteTo vs a bytes.Reader model; half of the CtxReadFull calls with a context of their own that is cancelled after the call returned (reader then fetches through a NodeGetter that refuses cancelled contexts), half of them directly followed by WriteTo/Read; non-trivial = a Seek lands strictly inside a leaf after a partial read of a leaf, or WriteTo directly follows a read that ended inside a leaf, or WriteTo has to fetch further leaves right after a CtxReadFull whose context is cancelled",
 	Quick: 6000, Thorough: 20000,
 	Gen: gen, Run: run, HangTimeout: 120 * time.Second,
 	Sample: func(c Case) any {
